@@ -319,7 +319,69 @@ def minimal(case, bad, il, ml):
     qs = [(i, j) for i in range(len(inv)) for j in range(len(inv))]
     return {"what": bad["what"], "seed": case["seed"], "roots": [[k] + list(case["roots"][k][:2]) for k in inv],
             "line": make_line(roots, qs, random.Random(0)), "queries": qs, "extra": bad.get("extra"),
-            "trees": [eg.ser(r[2]) for r in roots]}
+            "trees": [eg.ser(r[2]) for r in roots], "_roots": roots}
+
+
+def run_one(drv, mdl, workdir, roots, tag="shrink"):
+    """both drivers on one small case (every ordered pair); returns (impl bits, now bits, queries) or None"""
+    qs = [(i, j) for i in range(len(roots)) for j in range(len(roots))]
+    cf = os.path.join(workdir, "%s.cases" % tag)
+    open(cf, "w").write(make_line(roots, qs, random.Random(0)) + "\n")
+    il = vf.sh([drv, cf], timeout=120)[1].strip().split(" ")
+    ml = field(vf.sh([mdl, cf], timeout=120)[1].strip(), "now")
+    if len(il) != 3 or ml is None or len(il[0]) != len(qs) or len(ml) != len(qs):
+        return None
+    return il[0], ml, qs
+
+
+def shrink(drv, mdl, workdir, rep, budget=400):
+    """greedy structural shrinking of a replay whose problem shows as a disagreement between implementation and model
+    (for a symmetry failure: an asymmetric pair of the implementation that involves such a disagreement)"""
+    roots = rep.pop("_roots", None)
+    if roots is None or any(r[3] is not None for r in roots):
+        return rep
+    want_asym = "symmetry" in rep["what"]
+
+    def still_bad(rs):
+        r = run_one(drv, mdl, workdir, rs)
+        if r is None:
+            return False
+        impl, now, qs = r
+        dev = set(q for n, q in enumerate(qs) if impl[n] != now[n])
+        if not dev:
+            return False
+        if want_asym:
+            e = dict(zip(qs, impl))
+            return any(e[(i, j)] != e[(j, i)] and ((i, j) in dev or (j, i) in dev) for (i, j) in qs if i < j)
+        return True
+
+    if not still_bad(roots):
+        return rep
+    runs, progress = 1, True
+    while progress and runs < budget:
+        progress = False
+        reds = [dict(eg.reductions(r[2])) for r in roots]
+        # the same reduction in every tree that has that position (the trees of a case are look-alikes), then one tree at a time
+        cands = []
+        for key in reds[0]:
+            cands.append([(r[0], r[1], reds[k].get(key, r[2]), None) for k, r in enumerate(roots)])
+        for k in range(len(roots)):
+            for key, t in reds[k].items():
+                cands.append(roots[:k] + [(roots[k][0], roots[k][1], t, None)] + roots[k + 1:])
+        for cand in cands:
+            runs += 1
+            if still_bad(cand):
+                roots, progress = cand, True
+                break
+            if runs >= budget:
+                break
+    r = run_one(drv, mdl, workdir, roots)
+    rep["line"] = make_line(roots, r[2], random.Random(0))
+    rep["queries"] = r[2]
+    rep["trees"] = [eg.ser(x[2]) for x in roots]
+    rep["shrunk"] = {"driver_runs": runs, "impl": r[0], "model_now": r[1],
+                     "note": "trees reduced structurally while the disagreement persisted; the descriptions in 'roots' refer to the unreduced case"}
+    return rep
 
 
 # --------------------------------------------------------------------------- run
@@ -379,7 +441,7 @@ def run(ctx):
         if o["samples"]:
             ctx.cov["samples"] = o["samples"]
     # the property failing on the real objects comes first, then disagreements with the model
-    allbad.sort(key=lambda b: (0 if b["what"].startswith("ORACLE") else 1, str(b["seed"])))
+    allbad.sort(key=lambda b: (0 if b["what"].startswith("ORACLE") else 1, 0 if str(b["seed"]).startswith("corpus") else 1, str(b["seed"])))
     classes = {}
     for bad in allbad:
         c = (bad.get("extra") or {}).get("class", "other")
@@ -392,7 +454,17 @@ def run(ctx):
     for bad in shown:
         if nbad < 5:
             nbad += 1
-            ctx.violation("C10: " + bad["what"], "case_%d.json" % nbad, bad.get("case", bad))
+            rep = bad.get("case", bad)
+            if "_roots" in rep:
+                try:
+                    rep = shrink(drv, mdl, ctx.workdir, rep)
+                except Exception as ex:       # shrinking is a convenience; the unreduced replay is still valid
+                    rep.pop("_roots", None)
+                    rep["shrunk"] = "failed: %r" % ex
+            ctx.violation("C10: " + bad["what"], "case_%d.json" % nbad, rep)
+    for bad in allbad:
+        if isinstance(bad.get("case"), dict):
+            bad["case"].pop("_roots", None)
     ctx.cov["evaluations"] = tot["evaluations"]
     # distinct: the pairs are counted per case (distinct within the case by tree); cases with the same original are rare
     ctx.cov["distinct_nontrivial"] = int(tot["nontrivial"] * (len(seen_roots) / max(1, tot["cases"])))
